@@ -146,6 +146,10 @@ fn main() {
         let q = cx.gen_query();
         let params = cx.params.clone();
         let feats = cx.features.clone();
+        if cost_estimate(g, &q) > 3000.0 {
+            out.count("skipped_cost");
+            continue;
+        }
         // values without a faithful literal spelling are excluded (counted)
         if let Some((_, bad)) = params.iter().find(|(_, v)| !literal_round_trips(store, v)) {
             out.count("excluded_no_literal_spelling");
